@@ -282,39 +282,7 @@ func runC07(e *Engine, r *Report) {
 				"the live membership is changed only by membership.apply", "the live membership is changed outside membership.apply")
 		}
 	}
-	// the membership handed out is a deep copy; set() stores a deep copy
-	dc := r.need("internal/rsm.deepCopyMembership")
-	if dc != nil {
-		if g := r.need(mT + "get"); g != nil {
-			okc := true
-			forEachInstr(g, func(in ssa.Instruction) {
-				if ret, ok := in.(*ssa.Return); ok && !e.callV(dc)(retOperand(ret, 0)) {
-					okc = false
-				}
-			})
-			r.check(okc, "OWN-members-copy", "membership.get returns a deep copy", e.pos(g.Pos()),
-				"snapshot metadata and readers never alias the live membership maps", "membership.get hands out the live maps: a later config change leaks into an earlier snapshot's membership")
-		}
-		members := e.Field("internal/rsm", "membership", "members")
-		for _, w := range e.FieldWrites(members) {
-			if w.Kind == "init" {
-				continue
-			}
-			r.check(e.callV(dc)(w.Val), "OWN-members-copy", "membership.members assigned in "+fname(w.Fn), e.ipos(w.Instr),
-				"the membership is replaced only by a deep copy", "the membership is replaced by a value that aliases its source")
-		}
-		// deepCopy covers all four maps and the order id
-		covered := map[string]bool{}
-		forEachInstr(dc, func(in ssa.Instruction) {
-			if rg, ok := in.(*ssa.Range); ok {
-				if f, _, ok := loadedField(rg.X); ok {
-					covered[f.Name()] = true
-				}
-			}
-		})
-		r.check(keysOf(covered) == "Addresses,NonVotings,Removed,Witnesses", "OWN-members-copy", "deepCopyMembership copies all four maps", e.pos(dc.Pos()),
-			"all member kinds are copied", "deepCopyMembership copies only {"+keysOf(covered)+"}")
-	}
+	ruleMembershipCopy(e, r)
 
 	// ---- raft core: key sets of remotes/nonVotings/witnesses
 	tbl, err := e.RaftHandlerTable()
